@@ -11,6 +11,8 @@ import Bma400.Thm.C06b
 import Bma400.Thm.C01
 import Bma400.Thm.C07
 import Bma400.Thm.C08
+import Bma400.Thm.C03
+import Bma400.Thm.C10
 set_option linter.unusedSimpArgs false
 namespace Bma400
 namespace Thm
@@ -734,6 +736,89 @@ theorem config_reachable (t : Transport) (w : World) (hw : WInv t w) (q : Reques
     · rw [e1]; exact spec.2
     · exact C08_spec q w.shadow w.chip.regs hw.1.co hw.1.de ws h
     · exact C07_script q w.shadow w.chip.regs hw.1.co ws h
+
+/-- a fault-free read-only call in a reachable state: result of the abstract run, device and
+    recorded configuration untouched -/
+theorem read_reachable (t : Transport) (w : World) (hw : WInv t w) (op : Op) (a n : Nat)
+    (hplan : op.plan w.shadow = ⟨none, [.rd a n]⟩) :
+    let r := runOp t noFaults w op
+    r.2.2 = finishOutcome (op.finish w.shadow [w.chip.burst a n]) ∧
+    Chip.Same r.2.1.chip w.chip ∧ r.2.1.shadow = w.shadow := by
+  intro r
+  have hwf := plan_wf w.shadow op
+  rw [hplan] at hwf
+  have href := exec_refines t [.rd a n] hwf { w with idx := 0 } [] hw.2
+  have hr : r = runOp t noFaults w op := rfl
+  simp only [runOp, hplan] at hr
+  rcases hx : exec t noFaults { w with idx := 0 } [.rd a n] [] with ⟨j, w', res⟩
+  rw [hx] at href hr
+  obtain ⟨r1, r2, r3⟩ := href
+  cases res with
+  | error e => exact absurd r3 (by simp)
+  | ok reads =>
+    simp only [aexec] at hr r1 r2 r3
+    subst r3
+    rw [hr]
+    simp only at r2 ⊢
+    exact ⟨by rw [r2]; rfl, r1, r2⟩
+
+/-- C03 in every reachable state, over either transport: `get_data()` returns the 12-bit
+    two's-complement samples times the range THE DEVICE holds; nothing is changed -/
+theorem data_reachable (t : Transport) (w : World) (hw : WInv t w) :
+    (runOp t noFaults w .getData).2.2 = .ok (expectScaled w.chip.regs (w.chip.burst 4 6)) ∧
+    (runOp t noFaults w .getUnscaled).2.2 = .ok (expectUnscaled (w.chip.burst 4 6)) := by
+  have h1 := (read_reachable t w hw .getData 4 6 rfl).1
+  have h2 := (read_reachable t w hw .getUnscaled 4 6 rfl).1
+  have hb : w.chip.burst 4 6 = [w.chip.dataAt 4, w.chip.dataAt 5, w.chip.dataAt 6, w.chip.dataAt 7, w.chip.dataAt 8,
+      w.chip.dataAt 9] := by simp [Chip.burst, List.range, List.range.loop]
+  constructor
+  · rw [h1, hb]
+    simp only [Op.finish, C03_scaled w.shadow w.chip.regs (hw.1.co 0x1A (by decide)), Option.map, finishOutcome, expectScaled]
+  · rw [h2, hb]
+    simp only [Op.finish, C03_unscaled, Option.map, finishOutcome, expectUnscaled]
+
+/-- C19 in every reachable state: the FIFO read is refused, without bus traffic, exactly when
+    THE DEVICE has the read circuit disabled; otherwise one burst of the buffer length -/
+theorem fifo_reachable (t : Transport) (w : World) (hw : WInv t w) (n : Nat) :
+    (has (w.chip.regs 0x29) fpwr_READ_DISABLE = true →
+      runOp t noFaults w (.readFifo n) = ([], { w with idx := 0 }, .err (.cfg .fifoPwr))) ∧
+    (has (w.chip.regs 0x29) fpwr_READ_DISABLE = false →
+      (runOp t noFaults w (.readFifo n)).2.2 = .ok (fmtFifo (w.chip.burst 0x14 n))) := by
+  have hc : w.shadow 0x29 = w.chip.regs 0x29 := hw.1.co 0x29 (by decide)
+  constructor
+  · intro h
+    simp [runOp, Op.plan, hc, h]
+  · intro h
+    have hp : (Op.readFifo n).plan w.shadow = ⟨none, [.rd 0x14 n]⟩ := by simp [Op.plan, hc, h]
+    rw [(read_reachable t w hw (.readFifo n) 0x14 n hp).1]
+    simp [Op.finish, finishOutcome]
+
+/-- C10 in every reachable state, over either transport: the fault-free self test satisfies
+    `P.C10` (procedure, settling, verdict, every register restored) and leaves the recorded
+    configuration as it was -/
+theorem selftest_reachable (t : Transport) (w : World) (hw : WInv t w) :
+    let r := runOp t noFaults w .selfTest
+    P.C10 w.chip.regs r.2.1.chip.regs w.chip.pos w.chip.neg ((selfTestActs w.shadow).map Act.acc) r.2.2 ∧
+    (∀ a ∈ DS.cfgAddrs, r.2.1.shadow a = w.shadow a) := by
+  intro r
+  have habs := C10_abstract w.chip w.shadow hw.1.co
+  have hres := C10_restore_any w.chip w.shadow hw.1.co
+  have key : r.2.2 = finishOutcome (selfTestVerdict (aexec w.chip w.shadow (selfTestActs w.shadow) []).2.2) ∧
+      Chip.Same r.2.1.chip (aexec w.chip w.shadow (selfTestActs w.shadow) []).1 ∧
+      r.2.1.shadow = (aexec w.chip w.shadow (selfTestActs w.shadow) []).2.1 := by
+    cases t with
+    | i2c dev => exact (C10_i2c dev w).2
+    | spi => exact (C10_spi w (hw.2 rfl).1 (hw.2 rfl).2).2
+  obtain ⟨k1, k2, k3⟩ := key
+  constructor
+  · rw [k1, k2.1]; exact habs
+  · intro a ha
+    rw [k3]
+    -- the recorded configuration equals the device before and after, and the device is restored
+    have hco' := aexec_coherent (selfTestActs w.shadow) (plan_ok w.shadow .selfTest) w.chip w.shadow [] hw.1.co a ha
+    rw [hco', hw.1.co a ha]
+    have : a ≠ 0x7D := by have := cfg_lt_128 a ha; omega
+    exact hres.1 a this
 
 /-- non-vacuity: a concrete history over I2C - 200 Hz + tap interrupt, a self test cut by a bus
     error at its 8th raw operation, a rejected request, a reset - satisfies every hypothesis -/
